@@ -186,6 +186,7 @@ def _ops():
         (1, st.just(["broker_error"])),
         (1, st.just(["disconnect"])),
         (2, st.just(["reconnect"])),
+        (2, st.just(["abandoned_read"])),
     )
     return st.lists(op, min_size=0, max_size=14)
 
@@ -364,12 +365,21 @@ def run_case(case: dict) -> Outcome:
                     bad = await do_read(where)
                     if bad is not None:
                         return bad
+            elif kind == "abandoned_read":
+                # the application gives up a read that found nothing (polling with a timeout); nothing may be lost by that
+                if not expected and not dead:
+                    try:
+                        await asyncio.wait_for(transport.read(), 3.0)
+                    except asyncio.TimeoutError:
+                        pass
+                    except AIOMySensorsError:
+                        pass
+                    except Exception as err:  # noqa: BLE001
+                        return fail(f"read-leak:{type(err).__name__}", f"{where}: {err!r}")
+                    else:
+                        return fail("read-invented-message", f"{where}: a read returned although nothing was delivered")
             elif kind == "reconnect":
-                # same transport object, new session: everything still owed is read first, then disconnect + connect
-                while expected:
-                    bad = await do_read(where)
-                    if bad is not None:
-                        return bad
+                # same transport object, new session; what was received but not read yet stays owed to the reader
                 try:
                     await transport.disconnect()
                     await transport.connect()
